@@ -22,7 +22,9 @@ T0 = 1_600_000_000
 
 
 class Project:
-    def __init__(self, world: World, bindir: Path, root: Path, dofiles_absent=None, log_mode=False, extra_env=None):
+    def __init__(self, world: World, bindir: Path, root: Path, dofiles_absent=None, log_mode=False, extra_env=None,
+                 gates=False):
+        self.gates = gates
         self.w = world
         self.bindir = Path(bindir)
         self.root = Path(root)
@@ -49,7 +51,7 @@ class Project:
                 self._write(s, alpha[0])
         for df, variants in world.rules.items():
             if df not in dofiles_absent:
-                self._write(df, script_text(variants[0], 0, df))
+                self._write(df, script_text(variants[0], 0, df, gates=self.gates))
 
     # -- user-side file operations (explicit, strictly increasing mtimes) ------
     def _tick(self):
@@ -153,7 +155,7 @@ class Project:
             m.user_rm(op[1])
         elif kind == "dovar":
             df, k = op[1], op[2]
-            self._write(df, script_text(self.w.rules[df][k], k, df))
+            self._write(df, script_text(self.w.rules[df][k], k, df, gates=self.gates))
             m.set_variant(df, k)
         elif kind == "dorm":
             try:
